@@ -311,6 +311,12 @@ class C12(Scenario):
                         op = ["call", out, fn, [["$", s_]]]
                         if fn.startswith("sim.ops.") and rng.random() < 0.5:
                             op.append({"do_apply_function_pullbacks": True, "do_apply_integral_scaling": True, "do_apply_geometry_lowering": True})
+                    if arm in ("faulty-noise", "probe") and op[0] in ("obs", "call", "cmp", "roundtrip") and rng.random() < 0.25:
+                        # the query / algorithm on the program's own object is cut short
+                        if rng.random() < 0.75:
+                            op = ["fault", rng.choice(["interrupt", "interrupt", "memerr"]), int(10 ** rng.uniform(0, 4.3)), op]
+                        else:
+                            op = ["fault", "stack", rng.choice([4, 8, 15, 30, 60, 120]), op]
                     inserts.append((rng.randint(lo, npos), 10**6 + j, {"k": "noise", "n": ni, "op": op, "probe": 1}))
         # echo noise: one of the program's own algorithm calls is made a first time earlier on
         # the perturbed node (result discarded), so that the program's own call is the second
@@ -544,6 +550,8 @@ class C12(Scenario):
                     parts.add("fault:" + op[1])
                 elif op[0] in ("bump", "setctr"):
                     parts.add("ctr:" + op[2])
+                elif u.get("probe") and op[0] == "fault":
+                    parts.add("fault:" + op[1] + ":probe")
                 elif u.get("probe"):
                     parts.add("probe:" + (op[2] if op[0] in ("obs", "call") else op[0]))
                 else:
